@@ -179,6 +179,22 @@ def concretise(chk, sc, cfgseed, ndims, style=None):
             with open(os.path.join(ldir, gamma.file_name(f, cfg_)), "wb") as bf:
                 bf.write(b"".join(out))
 
+    # RAGGED ends: a truncation / an extension by ONE unit stands for every length error of at most a unit -- also one of less
+    # than a single value (1, 3, 4 or 7 bytes: a short write inside the last float64).  The file is still not what the headers
+    # declare, so the requirement values TLC computed for the state (damaged, not readable) stand
+    ap_ = sc.get("applied") or []
+    if style.get("ragged") and len(ap_) == 1 and ap_[0].get("k") in ("Truncate", "Extend") and ap_[0].get("u") == 1 \
+            and int(ap_[0]["f"]) not in gone:
+        k = [1, 3, 4, 7][cfgseed % 4]
+        pth = os.path.join(ldir, gamma.file_name(int(ap_[0]["f"]), cfg_))
+        if os.path.exists(pth) and unit > k:
+            if ap_[0]["k"] == "Truncate":
+                with open(pth, "ab") as bf:
+                    bf.write(junk(unit - k))          # all but k bytes of the removed unit are back
+            else:
+                with open(pth, "r+b") as bf:
+                    bf.truncate(os.path.getsize(pth) - (unit - k))   # only k bytes of the added unit stay
+
     def off_bytes(f, off):
         p = byte_pos.get(f)
         if p is None:
